@@ -631,3 +631,58 @@ def run_r10(run, funcs, rule='R10'):
         check_option_used(run, f)
         check_unit_typestate(run, f)
     return na
+
+
+# --------------------------------------------------------------------------- R10r: self-application forwards the options
+def check_recursion_options(run, funcs, rule='R10r'):
+    """A function/method that applies ITSELF to parts of its argument (per column, per element) must pass every option
+    parameter on; otherwise the caller's tolerance / unit / order applies to the scalar case only."""
+    n = 0
+    for f in funcs:
+        opts = [p for p in f.defaults() if p != f.selfname]
+        if not opts:
+            continue
+        pos = list(f.params)
+        # calls that sit in the element expression of a comprehension / the body of a for loop over (part of) a parameter
+        per_part = set()
+        for x in own_walk(f.node):
+            if isinstance(x, (ast.ListComp, ast.GeneratorExp)):
+                its, bodies = [g.iter for g in x.generators], [x.elt]
+            elif isinstance(x, ast.For):
+                its, bodies = [x.iter], x.body
+            else:
+                continue
+            if any(isinstance(y, ast.Name) and y.id in f.params for it in its for y in ast.walk(it)):
+                for b in bodies:
+                    for y in ast.walk(b):
+                        per_part.add(id(y))
+        for c in own_walk(f.node):
+            if not isinstance(c, ast.Call) or id(c) not in per_part:
+                continue
+            fn = c.func
+            selfcall = False
+            if f.cls is not None and isinstance(fn, ast.Attribute) and fn.attr == f.name and isinstance(fn.value, ast.Name):
+                selfcall = fn.value.id == f.selfname
+            elif f.cls is None and f.parent is None and isinstance(fn, ast.Name) and fn.id == f.name:
+                selfcall = True
+            if not selfcall:
+                continue
+            if any(isinstance(a, ast.Starred) for a in c.args) or any(k.arg is None for k in c.keywords):
+                continue
+            n += 1
+            given = {k.arg for k in c.keywords}
+            offset = 1 if f.cls is not None and f.selfname else 0
+            for i, a in enumerate(c.args):
+                if i + offset < len(pos):
+                    given.add(pos[i + offset])
+            missing = [p for p in opts if p not in given]
+            # only options that the body actually reads matter
+            used = {y.id for y in own_walk(f.node) if isinstance(y, ast.Name) and isinstance(y.ctx, ast.Load)}
+            missing = [p for p in missing if p in used]
+            construct = 'self-application ' + src(c, 50)
+            if missing:
+                run.violation(rule, f.key, construct, '%s applies itself to a part of its argument without passing %s on: the parts are '
+                              'processed with the default instead of the caller\'s value' % (f.name, ', '.join('%s=%s' % (p, p) for p in missing)), f=f, node=c)
+            else:
+                run.holds(rule, f.key, construct, 'every option (%s) is passed on' % ', '.join(opts), f=f, node=c)
+    return n
